@@ -131,6 +131,24 @@ func (e *env) concurrentDirect(g *gen, randomPairs int) {
 			}
 		}
 	}
+	// three updates of three different sections: the first one parks inside its write and holds
+	// whatever pd serialises persists with; the other two queue behind it and are let go together
+	dg := e.directedGroups()
+	saved := raceFaults
+	raceFaults = append(append(raceFaults[:0:0], raceFaults...), struct {
+		mode kvx.FaultMode
+		at   int
+	}{kvx.FailBefore, 3}, struct {
+		mode kvx.FaultMode
+		at   int
+	}{kvx.LostAck, 3})
+	for ti, calls := range [][]*call{{dg[0][0], dg[0][1], dg[2][0]}, {dg[4][0], dg[4][1], dg[5][0]}} {
+		if ops := e.copsOf(calls); ops != nil {
+			e.grid("overlap-direct-3", ops, [][]int{{0, 1, 2}, {1, 2, 0}, {2, 0, 1}}, restore, ti == 0)
+			r.Count("overlap_groups_of_three", 1)
+		}
+	}
+	raceFaults = saved
 	// random pairs from evolving states
 	for i := 0; i < randomPairs; i++ {
 		restore()
